@@ -183,10 +183,16 @@ class Canon:
                 cands = [a for a in simple if a.lineno < use_line and self._block_owner(a) in use_anc]
                 if cands:
                     best = max(cands, key=lambda a: a.lineno)
-                    # no other assignment between best and the use in an enclosing block
+                    # conditional overrides: later assignments (before the use) in blocks that do not enclose the use
+                    overrides = [a for a in simple if best.lineno < a.lineno < use_line and self._block_owner(a) not in use_anc]
                     self._stack.add(nm)
                     try:
-                        return self._c(self._copy(best.value), depth + 1, {})
+                        v0 = self._c(self._copy(best.value), depth + 1, {})
+                        if not overrides:
+                            return v0
+                        alts = sorted({ast.unparse(v0)} | {ast.unparse(self._c(self._copy(a.value), depth + 1, {})) for a in overrides})
+                        return ast.Call(func=ast.Name(id="PHI", ctx=ast.Load()),
+                                        args=[ast.parse(t, mode="eval").body for t in alts], keywords=[])
                     finally:
                         self._stack.discard(nm)
             return ast.Name(id="VAR", ctx=ast.Load())
